@@ -377,4 +377,16 @@ def r9_8(ctx):
     borrow(ctx, r7_8, "R7.8", "R9.8", " [a table rendered at the width it reports never exceeds it: the padding target of the column widths is bounded by the available width]")
 
 
-RULES = [r9_1, r9_2, r9_3, r9_4, r9_5, r9_6, r9_7, r9_8]
+def r9_9(ctx):
+    from .c01 import r1_4
+    from .common import borrow
+    borrow(ctx, r1_4, "R1.4", "R9.9", " [rendering at the reported minimum / maximum never exceeds it: Text.wrap truncates the lines of every paragraph to the width, wrapped or not (no_wrap)]")
+
+
+def r9_10(ctx):
+    from .c08 import r8_10
+    from .common import borrow
+    borrow(ctx, r8_10, "R8.10", "R9.10", " [Bar reports (width, width) clamped by the available width; rendering must clamp the same way]")
+
+
+RULES = [r9_1, r9_2, r9_3, r9_4, r9_5, r9_6, r9_7, r9_8, r9_9, r9_10]
